@@ -134,19 +134,23 @@ def linkAfter (h : Heap) (base ins : Nat) : Heap :=
     let h := setPrev h ins (some base)
     setNext h base (some ins)
 
+/-- `if (p) p->next = v;` / `if (p) p->prev = v;` -/
+def optSetNext (h : Heap) (p : Option Nat) (v : Option Nat) : Heap := match p with | some x => setNext h x v | none => h
+def optSetPrev (h : Heap) (p : Option Nat) (v : Option Nat) : Heap := match p with | some x => setPrev h x v | none => h
+
 /-- `swap_adjacent(n1, n2)` -/
 def swapAdjacent (h : Heap) (n1 n2 : Nat) : Heap :=
   if (nd h n1).next = some n2 then
-    let h := match (nd h n2).next with | some x => setPrev h x (some n1) | none => h
+    let h := optSetPrev h (nd h n2).next (some n1)
     let h := setNext h n1 (nd h n2).next
-    let h := match (nd h n1).prev with | some x => setNext h x (some n2) | none => h
+    let h := optSetNext h (nd h n1).prev (some n2)
     let h := setPrev h n2 (nd h n1).prev
     let h := setPrev h n1 (some n2)
     setNext h n2 (some n1)
   else if (nd h n2).next = some n1 then
-    let h := match (nd h n1).next with | some x => setPrev h x (some n2) | none => h
+    let h := optSetPrev h (nd h n1).next (some n2)
     let h := setNext h n2 (nd h n1).next
-    let h := match (nd h n2).prev with | some x => setNext h x (some n1) | none => h
+    let h := optSetNext h (nd h n2).prev (some n1)
     let h := setPrev h n1 (nd h n2).prev
     let h := setPrev h n2 (some n1)
     setNext h n1 (some n2)
@@ -159,13 +163,13 @@ def swap (h : Heap) (n1 n2 : Nat) : Heap :=
   let n1r := (nd h n1).next
   let n2l := (nd h n2).prev
   let n2r := (nd h n2).next
-  let h := match n1l with | some x => setNext h x (some n2) | none => h
+  let h := optSetNext h n1l (some n2)
   let h := setPrev h n2 n1l
-  let h := match n1r with | some x => setPrev h x (some n2) | none => h
+  let h := optSetPrev h n1r (some n2)
   let h := setNext h n2 n1r
-  let h := match n2l with | some x => setNext h x (some n1) | none => h
+  let h := optSetNext h n2l (some n1)
   let h := setPrev h n1 n2l
-  let h := match n2r with | some x => setPrev h x (some n1) | none => h
+  let h := optSetPrev h n2r (some n1)
   setNext h n1 n2r
 
 /-- `unlinkn(list, node)`: returns the data -/
@@ -217,15 +221,16 @@ def spliceBetween (h : Heap) (l1 l2 : Hdr) (left right : Option Nat) (m : Mem) :
   | _, _, _, _ => (h, l1, l2, m.check false)
 
 /-- the loop of `link_all_externally(dest, list, &h, &t)`: `insert` walks the source, every element is
-copied into a fresh node appended to the external chain; a refusal releases the chain built so far -/
-def linkAllLoop (t : Triple) : Nat → St → Option Nat → Option Nat → Option Nat → Mem → Bool × St × Option Nat × Option Nat × Mem
-  | 0, s, _, hd, tl, m => (true, s, hd, tl, m)
-  | k + 1, s, insert, hd, tl, m =>
+copied into a fresh node appended to the external chain (`got` nodes so far); a refusal releases the chain
+built so far -/
+def linkAllLoop (t : Triple) : Nat → Nat → St → Option Nat → Option Nat → Option Nat → Mem → Bool × St × Option Nat × Option Nat × Mem
+  | 0, _, s, _, hd, tl, m => (true, s, hd, tl, m)
+  | k + 1, got, s, insert, hd, tl, m =>
     let a := m.allocT t
     if !a.1 then
       -- while (*h) { tmp = (*h)->next; free(*h); *h = tmp; }
-      let ids := idsNext s.heap s.fresh hd
-      (false, ids.foldl (fun s id => s.free id) s, none, tl, Mem.freeN t ids.length a.2)
+      let ids := idsNext s.heap got hd
+      (false, ids.foldl (fun s id => s.free id) s, none, tl, Mem.freeN t got a.2)
     else
     let m := a.2
     match insert with
@@ -240,7 +245,7 @@ def linkAllLoop (t : Triple) : Nat → St → Option Nat → Option Nat → Opti
           let h := setPrev h new (some tl')
           (h, some hd', some new)
         | _, _ => (h, some new, some new)
-      linkAllLoop t k { s with heap := h } (nd h src).next hd tl m
+      linkAllLoop t k (got + 1) { s with heap := h } (nd h src).next hd tl m
 
 /-! ### the public functions -/
 
@@ -364,6 +369,12 @@ def reverse (s : St) (l : Hdr) : St × Hdr :=
   if l.size = 0 ∨ l.size = 1 then (s, l) else
   ({ s with heap := reverseLoop (l.size / 2) s.heap l.head l.tail }, { l with head := l.tail, tail := l.head })
 
+/-- `base` of `cc_list_splice_at` / `cc_list_add_all_at`: `if (end) base = end->prev; else get_node_at(list1, index - 1, &base);` -/
+def baseOf (h : Heap) (l1 : Hdr) (e : Option Nat) (index : Nat) : Option Nat :=
+  match e with
+  | some en => (nd h en).prev
+  | none => (getNodeAt h l1 (index - 1)).2
+
 /-- `cc_list_splice_at` -/
 def spliceAt (s : St) (l1 l2 : Hdr) (index : Nat) (m : Mem) : Stat × St × Hdr × Hdr × Mem :=
   if l2.size = 0 then (.ok, s, l1, l2, m) else
@@ -372,7 +383,7 @@ def spliceAt (s : St) (l1 l2 : Hdr) (index : Nat) (m : Mem) : Stat × St × Hdr 
     (.ok, s, { l1 with head := l2.head, tail := l2.tail, size := l2.size }, { l2 with head := none, tail := none, size := 0 }, m)
   else
   let e := (getNodeAt s.heap l1 index).2
-  let base := match e with | some en => (nd s.heap en).prev | none => (getNodeAt s.heap l1 (index - 1)).2
+  let base := baseOf s.heap l1 e index
   let r := spliceBetween s.heap l1 l2 base e m
   (.ok, { s with heap := r.1 }, r.2.1, r.2.2.1, r.2.2.2)
 
@@ -381,7 +392,7 @@ def splice (s : St) (l1 l2 : Hdr) (m : Mem) : Stat × St × Hdr × Hdr × Mem :=
 
 /-- `link_all_externally(dest, list, &h, &t)` -/
 def linkAllExternally (s : St) (dest src : Hdr) (m : Mem) : Bool × St × Option Nat × Option Nat × Mem :=
-  linkAllLoop dest.triple src.size s src.head none none m
+  linkAllLoop dest.triple src.size 0 s src.head none none m
 
 /-- `add_all_to_empty` -/
 def addAllToEmpty (s : St) (l1 l2 : Hdr) (m : Mem) : Stat × St × Hdr × Mem :=
@@ -389,6 +400,25 @@ def addAllToEmpty (s : St) (l1 l2 : Hdr) (m : Mem) : Stat × St × Hdr × Mem :=
   let r := linkAllExternally s l1 l2 m
   if !r.1 then (.errAlloc, r.2.1, l1, r.2.2.2.2) else
   (.ok, r.2.1, { l1 with head := r.2.2.1, tail := r.2.2.2.1, size := l2.size }, r.2.2.2.2)
+
+/-- the attachment of the externally built chain `hd … tl` (`n2` nodes) in `cc_list_add_all_at`; `h1`/`t1` are
+`list1->head`/`list1->tail` -/
+def attach (s : St) (l1 : Hdr) (n2 hd tl h1 t1 : Nat) (e base : Option Nat) (m : Mem) : Stat × St × Hdr × Mem :=
+  match e, base with
+  | none, _ =>
+    let h := setNext s.heap t1 (some hd)
+    let h := setPrev h hd (some t1)
+    (.ok, { s with heap := h }, { l1 with tail := some tl, size := l1.size + n2 }, m)
+  | some _, none =>
+    let h := setPrev s.heap h1 (some tl)
+    let h := setNext h tl (some h1)
+    (.ok, { s with heap := h }, { l1 with head := some hd, size := l1.size + n2 }, m)
+  | some en, some b =>
+    let h := setPrev s.heap hd (some b)
+    let h := setNext h b (some hd)
+    let h := setNext h tl (some en)
+    let h := setPrev h en (some tl)
+    (.ok, { s with heap := h }, { l1 with size := l1.size + n2 }, m)
 
 /-- `cc_list_add_all_at` -/
 def addAllAt (s : St) (l1 l2 : Hdr) (index : Nat) (m : Mem) : Stat × St × Hdr × Mem :=
@@ -402,22 +432,8 @@ def addAllAt (s : St) (l1 l2 : Hdr) (index : Nat) (m : Mem) : Stat × St × Hdr 
   match r.2.2.1, r.2.2.2.1, l1.head, l1.tail with
   | some hd, some tl, some h1, some t1 =>
     let e := (getNodeAt s.heap l1 index).2
-    let base := match e with | some en => (nd s.heap en).prev | none => (getNodeAt s.heap l1 (index - 1)).2
-    match e, base with
-    | none, _ =>
-      let h := setNext s.heap t1 (some hd)
-      let h := setPrev h hd (some t1)
-      (.ok, { s with heap := h }, { l1 with tail := some tl, size := l1.size + l2.size }, m)
-    | some _, none =>
-      let h := setPrev s.heap h1 (some tl)
-      let h := setNext h tl (some h1)
-      (.ok, { s with heap := h }, { l1 with head := some hd, size := l1.size + l2.size }, m)
-    | some en, some b =>
-      let h := setPrev s.heap hd (some b)
-      let h := setNext h b (some hd)
-      let h := setNext h tl (some en)
-      let h := setPrev h en (some tl)
-      (.ok, { s with heap := h }, { l1 with size := l1.size + l2.size }, m)
+    let base := baseOf s.heap l1 e index
+    attach s l1 l2.size hd tl h1 t1 e base m
   | _, _, _, _ => (.ok, s, l1, m.check false)
 
 /-- `cc_list_add_all` -/
